@@ -1,6 +1,9 @@
 import Driver.Solver
 import Driver.Linker
 import Driver.Frame
+import Driver.TimeSeries
+import Driver.EvalIndex
+import Driver.Reindex
 /-
 Correspondence driver.  `.lake/build/bin/fsicdrv < requests > replies`  (or `lake env lean --run Main.lean`)
 Each request line is `<kind>\t<json>`; each reply is one line (`!<message>` on a malformed request).
@@ -9,7 +12,13 @@ Every model family registers its handlers in its own `Driver/<Family>.lean`; thi
 open Lean
 
 def allHandlers : List (String × (Json → Except String String)) :=
-  Drv.Solver.handlers2 ++ Drv.Linker.handlers ++ Drv.Frame.handlers
+  Drv.Solver.handlers2 ++
+  Drv.Linker.handlers ++
+  Drv.Frame.handlers ++
+
+  Drv.TimeSeries.handlers ++
+  Drv.EvalIndex.handlers ++
+  Drv.Reindex.handlers
 
 def dispatch (kind : String) (j : Json) : Except String String :=
   match allHandlers.lookup kind with
